@@ -27,7 +27,7 @@ type PipeEnd struct {
 }
 
 // StallTimeout bounds how long a Read may block (hang guard only, never an oracle).
-var StallTimeout = 20 * time.Second
+var StallTimeout = 8 * time.Second
 
 // ErrStall is returned when a Read blocked for StallTimeout.
 type stallErr struct{}
